@@ -63,10 +63,13 @@ package server
 //@ requires client != nil && pub != nil && client.opts != nil && client.server != nil && client.unackStore != nil && client.server.retainedDB != nil && client.deliverMessage != nil
 //@ requires pub.Version == client.version && (client.version == 5 ==> pub.Properties != nil) && pub.Qos <= 2
 //@ requires [C13] len(client.aliasMapper) > int(client.opts.ServerTopicAliasMax)
+//@ witness alias = *pub.Properties.TopicAlias
+//@ witness max = client.opts.ServerTopicAliasMax
 //@ modifies heap, ghost(client.$delivered), ghost(client.$lastMsg), ghost(client.$lastOptsTopic), ghost(H.$arrived), ghost(H.$vErr), ghost(H.$vMsg), ghost(U.$has), ghost(R.$msg), ghost(R.$ops), ghost(client.$nout), ghost(client.$lastOut)
-//@ ensures [C13] hasAlias && (alias == 0 || alias > old(client.opts.ServerTopicAliasMax)) ==> result != nil && result.Code == 148
-//@ ensures [C13] hasAlias && 1 <= alias && alias <= old(client.opts.ServerTopicAliasMax) && old(len(pub.TopicName)) != 0 ==> result == nil || result.Code != 148
-//@ ensures [C13] hasAlias && 1 <= alias && alias <= old(client.opts.ServerTopicAliasMax) && old(len(pub.TopicName)) == 0 && old(len(client.aliasMapper[int(alias)])) == 0 ==> result != nil && result.Code == 148
+//@ let retainRefused = !client.opts.RetainAvailable && pub.Retain
+//@ ensures [C13] hasAlias && (alias == 0 || alias > old(client.opts.ServerTopicAliasMax)) ==> result != nil && (result.Code == 148 || (retainRefused && result.Code == 154))
+//@ ensures [C13] hasAlias && 1 <= alias && alias <= old(client.opts.ServerTopicAliasMax) && old(len(pub.TopicName)) != 0 && old(pub.Qos) != 2 ==> result == nil || result.Code != 148
+//@ ensures [C13] hasAlias && 1 <= alias && alias <= old(client.opts.ServerTopicAliasMax) && old(len(pub.TopicName)) == 0 && old(len(client.aliasMapper[int(alias)])) == 0 ==> result != nil && (result.Code == 148 || (retainRefused && result.Code == 154))
 //@ ensures [C14] H.$arrived <= old(H.$arrived) + 1
 //@ ensures [C04] dup ==> client.$delivered == old(client.$delivered)
 //@ ensures [C14] H.$arrived == old(H.$arrived) + 1 && hookVeto(client) ==> client.$delivered == old(client.$delivered)
